@@ -1,6 +1,7 @@
 //! vvh - conformance harness binding the TLA+ specifications in /verif/spec to meshless_voronoi.
 mod common;
 mod latt;
+mod nn;
 mod probe;
 mod sched;
 mod tess;
@@ -16,6 +17,7 @@ fn main() {
         "replay-cells" => latt::main_replay(rest),
         "tess" => tess::main_tess(rest),
         "sched" => sched::main_sched(rest),
+        "nn" => nn::main_nn(rest),
         other => {
             eprintln!("unknown subcommand {}", other);
             2
